@@ -53,5 +53,6 @@ pub closed spec fn managed(&self) -> Set<String> { self.managed_files@ }
 
 }
 
+//@ AUTO-FREE-FNS
 } // verus!
 fn main() {}
